@@ -26,8 +26,46 @@ MODULES = [
 ]
 VERSION = '3.12'
 ERRNOS = {'ENOSPC': errno.ENOSPC, 'EACCES': errno.EACCES, 'EIO': errno.EIO, 'ENOENT': errno.ENOENT}
-PATCH_POINTS = ['open', 'pickle.dump', 'pickle.load', 'os.makedirs', 'os.path.getmtime', 'os.utime', 'os.remove', 'os.scandir',
-                'os.listdir', 'os.stat']
+PATCH_POINTS = ['open', 'pickle.dump', 'pickle.load', 'file.write', 'file.read', 'os.makedirs', 'os.path.getmtime', 'os.utime',
+                'os.remove', 'os.scandir', 'os.listdir', 'os.stat']
+
+
+class _FileProxy:
+    """A file opened by parso.cache under the private root: read()/write() calls are injection points of their own (whatever
+    serialises through them - pickle.dump(obj, f) or f.write(bytes))."""
+
+    def __init__(self, f, inj):
+        self._f = f
+        self._inj = inj
+
+    def write(self, data):
+        self._inj.hit('file.write')
+        return self._f.write(data)
+
+    def read(self, *a):
+        self._inj.hit('file.read')
+        return self._f.read(*a)
+
+    def readinto(self, b):
+        self._inj.hit('file.read')
+        return self._f.readinto(b)
+
+    def readline(self, *a):
+        self._inj.hit('file.read')
+        return self._f.readline(*a)
+
+    def __enter__(self):
+        self._f.__enter__()
+        return self
+
+    def __exit__(self, *a):
+        return self._f.__exit__(*a)
+
+    def __iter__(self):
+        return iter(self._f)
+
+    def __getattr__(self, name):
+        return getattr(self._f, name)
 
 
 class World:
@@ -94,15 +132,22 @@ class Injector:
                     pass
         return False
 
+    def hit(self, name):
+        i = self.counts.get(name, 0)
+        self.counts[name] = i + 1
+        if name == self.target and i == self.index and not self.fired:
+            self.fired = True
+            raise OSError(self.err, os.strerror(self.err) + ' (injected)')
+
     def _wrap(self, name, fn):
         def wrapper(*args, **kw):
-            if self._under(args):
-                i = self.counts.get(name, 0)
-                self.counts[name] = i + 1
-                if name == self.target and i == self.index and not self.fired:
-                    self.fired = True
-                    raise OSError(self.err, os.strerror(self.err) + ' (injected)')
-            return fn(*args, **kw)
+            under = self._under(args)
+            if under:
+                self.hit(name)
+            res = fn(*args, **kw)
+            if under and name == 'open':
+                return _FileProxy(res, self)
+            return res
         return wrapper
 
     def __enter__(self):
@@ -152,7 +197,11 @@ def oracle_after_fault(w, call=None):
     try:
         d = first_tree_diff(m, fresh)
     except Exception as e:
-        d = 'returned object is not a well-formed tree: %s: %s' % (type(e).__name__, e)
+        # (a tree unpickled from corrupted bytes can hold anything: even printing the exception may fail)
+        try:
+            d = 'returned object is not a well-formed tree: %s: %s' % (type(e).__name__, str(e)[:200])
+        except BaseException:
+            d = 'returned object is not a well-formed tree: %s' % type(e).__name__
     if d:
         return ('wrong-tree-after-fault', d)
     return None
@@ -217,7 +266,16 @@ def run_fault(case):
             elif kind == 'garbage':
                 new = bytes.fromhex(fault['hex'])
             elif kind == 'splice':
-                other = pickle.dumps(pcache._NodeCacheItem(w.g.parse('y = [1, 2, 3]\n' * 3), ['y'], 1.0), pickle.HIGHEST_PROTOCOL)
+                # the bytes of *another entry's file*, whatever the on-disk format is: written by the library itself
+                other_src = os.path.join(w.root, 'other.py')
+                with open(other_src, 'w') as f:
+                    f.write('y = [1, 2, 3]\n' * 3)
+                w.g.parse(path=other_src, cache=True, cache_path=w.cdir)
+                others = [x for x in w.pickles() if x != pk]
+                with open(others[0], 'rb') as f:
+                    other = f.read()
+                os.remove(others[0])
+                pcache.parser_cache.clear()
                 k = fault['offset'] % (min(len(other), len(data)) + 1)
                 new = other[:k] + data[k:]
             elif kind == 'foreign':
@@ -412,6 +470,43 @@ def count_calls(scenario):
         w.close()
 
 
+_POISONED = False
+_BASELINE = None
+
+
+def _class_state():
+    """Names in the __dict__ of every class of parso.tree / parso.python.tree (a corrupted pickle can add or replace them)."""
+    import parso.python.tree as pt
+    import parso.tree as bt
+    out = {}
+    for mod in (bt, pt):
+        for name, obj in vars(mod).items():
+            if isinstance(obj, type) and obj.__module__ == mod.__name__:
+                # (__slotnames__ is copyreg's own cache, written the first time an instance is pickled)
+                out[mod.__name__ + '.' + name] = sorted((k, id(v)) for k, v in vars(obj).items() if k != '__slotnames__')
+    return out
+
+
+def process_state_damage():
+    """None, or a description of how the tree classes differ from their state at start-up / a small parse fails."""
+    global _BASELINE
+    cur = _class_state()
+    if _BASELINE is None:
+        _BASELINE = cur
+        return None
+    for k in cur:
+        if cur[k] != _BASELINE.get(k):
+            a, b = dict(_BASELINE.get(k, [])), dict(cur[k])
+            changed = sorted(set(a) ^ set(b)) or sorted(x for x in a if a[x] != b.get(x))
+            return 'class %s: attributes added/removed/replaced: %r' % (k, changed[:5])
+    try:
+        import parso
+        parso.parse('x = (1)\ndef f(a): pass\n').get_code()
+    except Exception as e:
+        return 'a plain parse now raises %s: %s' % (type(e).__name__, str(e)[:120])
+    return None
+
+
 class C17(Prop):
     id = 'C17'
     level = 'fault_enumeration'
@@ -445,6 +540,7 @@ class C17(Prop):
         soft, hard = resource.getrlimit(resource.RLIMIT_AS)
         if soft == resource.RLIM_INFINITY or soft > lim:
             resource.setrlimit(resource.RLIMIT_AS, (lim, hard))
+        process_state_damage()       # records the baseline
 
     def strategy(self, tier):
         fault = st.one_of(
@@ -512,7 +608,16 @@ class C17(Prop):
         return {'injection_points_reached': getattr(self, '_call_counts', {})}
 
     def check(self, case):
+        global _POISONED
+        if _POISONED:
+            return Outcome(excluded='worker state was corrupted by an earlier case (reported there)')
         fail, info = run_fault(case)
+        if fail is None or not fail[0].startswith('process-state'):
+            bad = process_state_damage()
+            if bad:
+                # unpickling a corrupted file may execute BUILD/setattr on parso's own classes: the damage outlives the call
+                _POISONED = True
+                fail = ('process-state-corrupted-by-corrupt-cache-file', bad)
         f = case['fault']
         classes = [f['kind']]
         if f['kind'] == 'inject':
